@@ -269,10 +269,14 @@ class TagIndex(Index):
 
     def convert(self, event: Event):
         for tag in event.tags:
-            if len(tag) >= 2 and (
-                len(tag[0]) == 1 or tag[0] in ("expiration", "delegation")
+            # only string values can be queried; str() of anything else is not stable
+            # across the msgpack round trip (list vs tuple), which left stale keys
+            if (
+                len(tag) >= 2
+                and isinstance(tag[1], str)
+                and (len(tag[0]) == 1 or tag[0] in ("expiration", "delegation"))
             ):
-                yield self.to_key((tag[0], str(tag[1])))
+                yield self.to_key((tag[0], tag[1]))
 
 
 class AuthorKindIndex(Index):
